@@ -156,3 +156,6 @@ package plonk
 //@   requires opts != nil && spr != nil && pk != nil
 //@   ensures @szk-randomizers result.1 == nil && opts.StatisticalZK ==> isRnd(result.0.quotientShardsRandomizers[0]) && isRnd(result.0.quotientShardsRandomizers[1])
 //@   ensures @blinding-slots result.1 == nil ==> len(result.0.bp) == 4 && alloc(result.0.bp) != alloc(result.0)
+
+// (a contract for bsb22Hint -- the committed Lagrange vector carries a fresh random value in the row of the commitment's
+// own injection constraint -- was written and did not discharge within the budget: undecided, not claimed)
